@@ -442,7 +442,7 @@ func moreCases(pr *pProbe, opts []participle.Option) {
 	}, []want{{"a b c a b c d", `{"Items":["b","b"],"Tail":"d"}`, 1}, {"a b c a b d", ``, 1}, {"a b c", `{"Items":["b"],"Tail":""}`, 1}})
 	// a failed attempt that consumed more than the lookahead commits the parse: with lookahead 1 the input must be
 	// rejected; with lookahead >= 2 the second alternative is found
-	for _, k := range []int{1, 2, 5, -1} {
+	for _, k := range []int{0, 1, 2, 5, -1} {
 		p, err := participle.Build[pbOuter](build(k)...)
 		if err != nil {
 			pr.fail("Build(pbOuter): %v", err)
@@ -453,11 +453,13 @@ func moreCases(pr *pProbe, opts []participle.Option) {
 		if !ok {
 			continue
 		}
-		if k == 1 && perr == nil {
-			pr.fail("commit grammar, lookahead 1: input \"a b d\" parses to %s although the first alternative failed after consuming 2 > 1 tokens", probeAST(v))
+		if (k == 0 || k == 1) && perr == nil {
+			pr.fail("commit grammar, lookahead %d: input \"a b d\" parses to %s although the first alternative failed after consuming 2 > %d tokens (and it is rejected with larger lookahead 1)", k, probeAST(v), k)
 		}
-		if k != 1 && (perr != nil || probeAST(v) != `{"Opt":{"V":["a","b","d"]},"Rest":null}`) {
-			pr.fail("commit grammar, lookahead %d: input \"a b d\" gives %s %v", k, probeAST(v), perr)
+		if k > 1 || k < 0 {
+			if perr != nil || probeAST(v) != `{"Opt":{"V":["a","b","d"]},"Rest":null}` {
+				pr.fail("commit grammar, lookahead %d: input \"a b d\" gives %s %v", k, probeAST(v), perr)
+			}
 		}
 	}
 	// typed literal among case-insensitive types: the type constraint still applies
